@@ -6,6 +6,7 @@ package main
 import (
 	"context"
 	"fmt"
+	"sort"
 	"sync"
 	"sync/atomic"
 	"time"
@@ -19,6 +20,9 @@ type jcDecor struct {
 	mu    sync.Mutex
 	armed string // journal name for which GetOrCreate fails
 	hits  int
+	// hook, if set, runs once, inside the next GetOrCreate call (i.e. while a GetJournals visit is standing on the
+	// partition it is opening), with the name of the journal being opened
+	hook func(jname string)
 }
 
 func (d *jcDecor) GetOrCreate(ctx context.Context, jname string) (journal.Journal, error) {
@@ -27,11 +31,22 @@ func (d *jcDecor) GetOrCreate(ctx context.Context, jname string) (journal.Journa
 	if fail {
 		d.hits++
 	}
+	hook := d.hook
+	d.hook = nil
 	d.mu.Unlock()
+	if hook != nil {
+		hook(jname)
+	}
 	if fail {
 		return nil, fmt.Errorf("verif: injected fault: too many open files (journal %s)", jname)
 	}
 	return d.Controller.GetOrCreate(ctx, jname)
+}
+
+func (d *jcDecor) setHook(h func(string)) {
+	d.mu.Lock()
+	d.hook = h
+	d.mu.Unlock()
 }
 
 func (d *jcDecor) arm(jname string) {
@@ -109,5 +124,115 @@ func (st *store) runOpenFail(j int, subset []int, failed int) (Case, error) {
 		cs.Oracle = &Violation{Class: "c04-open-failure-subset", Detail: fmt.Sprintf("%s: %d partitions match, the journal of partition %d cannot be opened (GetOrCreate fails), yet the query returned %d events of %d partitions (%d opened) without an error",
 			q, len(subset), failed, len(r.g), len(got), len(st.rec.order))}
 	}
+	return cs, nil
+}
+
+// runRemoved reads subset j of the store while one of its partitions is removed from the tag index during the
+// GetJournals visit: the visit (tindex Visit over a snapshot of the matching partitions) is held inside the GetOrCreate
+// of the first partition it opens, another partition of the subset -- not visited yet -- is acquired, locked exclusively
+// and deleted (what dropping a partition does), then the visit goes on. Expected: the request succeeds and reads ALL the
+// remaining matching partitions. The store has one partition less afterwards: this is the last case run on a store.
+func (st *store) runRemoved(j int, subset []int, pick int) (Case, error) {
+	q := fmt.Sprintf("SELECT FROM s%d=y", j)
+	for _, i := range subset { // single reads for the oracle, before anything is removed
+		if _, err := st.readSingle(i); err != nil {
+			return Case{}, err
+		}
+	}
+	d := st.decorate()
+	victim := -1
+	var herr error
+	d.setHook(func(jname string) {
+		// the pick-th member of the subset that is not the partition being opened
+		var cand []int
+		for _, i := range subset {
+			if st.lay[i].Jrnl != jname && st.lay[i].Jrnl != "" {
+				cand = append(cand, i)
+			}
+		}
+		if len(cand) == 0 {
+			herr = fmt.Errorf("no partition to remove")
+			return
+		}
+		v := cand[pick%len(cand)]
+		src := st.lay[v].Jrnl
+		ti := st.srv.Partitions.TIndex
+		if _, err := ti.GetJournalTags(src, true); err != nil {
+			herr = fmt.Errorf("acquire %s: %v", src, err)
+			return
+		}
+		if !ti.LockExclusively(src) {
+			ti.Release(src)
+			herr = fmt.Errorf("partition %s could not be locked exclusively", src)
+			return
+		}
+		if err := ti.Delete(src); err != nil {
+			herr = fmt.Errorf("delete %s: %v", src, err)
+			return
+		}
+		victim = v
+	})
+	type qr struct {
+		g   []Got
+		err error
+	}
+	ch := make(chan qr, 1)
+	go func() {
+		g, _, err := query(st.srv, q, "", 0, 10000)
+		ch <- qr{g, err}
+	}()
+	rp := &Replay{Kind: "e2e", Parts: st.parts, Subset: subset, Removed: pick + 1}
+	cs := Case{Replay: rp, Stream: "e2e-removed", NonTrivial: len(subset) >= 3,
+		Tags: []string{fmt.Sprintf("e2e:removed-matching=%s", bucket(len(subset)))}}
+	var r qr
+	select {
+	case r = <-ch:
+	case <-time.After(opTimeout):
+		d.setHook(nil)
+		atomic.AddInt32(&hangs, 1)
+		st.poisoned = true
+		cs.Coq = GApp("KRemoved", GNat(len(subset)), GNat(0), "[]", "true")
+		cs.Oracle = &Violation{Class: "c04-hang", Detail: fmt.Sprintf("query %s with a partition removed during the visit did not return", q)}
+		return cs, nil
+	}
+	d.setHook(nil)
+	if herr != nil || victim < 0 {
+		return cs, fmt.Errorf("removed case: the removal did not take place (query %s): %v", q, herr)
+	}
+	idx := map[int]int{}
+	for k, i := range subset {
+		idx[i] = k
+	}
+	var opened []int
+	for _, jn := range st.rec.order {
+		if i, ok := st.byJrnl[jn]; ok {
+			opened = append(opened, idx[i])
+		}
+	}
+	sort.Ints(opened)
+	if r.err != nil {
+		opened = nil
+	}
+	cs.Coq = GApp("KRemoved", GNat(len(subset)), GNat(idx[victim]), GListNat(opened), GBool(r.err != nil))
+	if r.err != nil {
+		cs.Oracle = &Violation{Class: "c04-removed-during-visit-error", Detail: fmt.Sprintf("%s: partition %d was removed while the request selected its %d sources; the request failed: %v", q, victim, len(subset), r.err)}
+		return cs, nil
+	}
+	if len(opened) != len(subset)-1 {
+		cs.Oracle = &Violation{Class: "c04-removed-during-visit-subset", Detail: fmt.Sprintf("%s: %d partitions match, partition %d was removed from the tag index while the visit was opening its first partition; %d partitions still match and exist, the request read only %d of them (%d events) without an error",
+			q, len(subset), victim, len(subset)-1, len(opened), len(r.g))}
+		return cs, nil
+	}
+	srcs := map[int][]Ev{}
+	sorted := true
+	for _, i := range subset {
+		if i == victim {
+			continue
+		}
+		es, _ := st.readSingle(i)
+		sorted = sorted && isSorted(es)
+		srcs[i] = es
+	}
+	cs.Oracle = oracleMerge(st.items(r.g), srcs, false, sorted)
 	return cs, nil
 }
